@@ -242,7 +242,7 @@ theorem monthLen_bounds (k : Nat) : 28 ≤ monthLen k ∧ monthLen k ≤ 31 := b
 
 theorem monthStart_succ (k : Nat) : monthStart (k + 1) = monthStart k + monthLen k := rfl
 
-theorem monthStart_nonneg (k : Nat) : 0 ≤ monthStart k := by
+theorem monthStart_nonneg (k : Nat) : M0 ≤ monthStart k := by
   induction k with
   | zero => simp [monthStart]
   | succ k ih => have := monthLen_bounds k; rw [monthStart_succ]; omega
@@ -283,19 +283,19 @@ theorem findMonthFrom_spec (d : Int) (fuel k : Nat) (hs : monthStart k ≤ d)
       have := monthLen_bounds k
       exact ih (k + 1) (by rw [monthStart_succ]; omega) (by rw [monthStart_succ]; omega)
 
-/-- `findMonth d = (k, monthStart k)` with `monthStart k ≤ d < monthStart (k+1)`, for `d ≥ 0` -/
-theorem findMonth_spec (d : Int) (hd : 0 ≤ d) :
+/-- `findMonth d = (k, monthStart k)` with `monthStart k ≤ d < monthStart (k+1)`, for `d ≥ M0` (1600-01-01) -/
+theorem findMonth_spec (d : Int) (hd : M0 ≤ d) :
     ∃ k, findMonth d = (k, monthStart k) ∧ InMonth k d := by
   unfold findMonth
   exact findMonthFrom_spec d _ 0 hd (by simp only [monthStart]; omega)
 
 theorem findMonth_eq {k : Nat} {d : Int} (h : InMonth k d) : findMonth d = (k, monthStart k) := by
-  have hd : 0 ≤ d := by have := monthStart_nonneg k; unfold InMonth at h; omega
+  have hd : M0 ≤ d := by have := monthStart_nonneg k; unfold InMonth at h; omega
   obtain ⟨k', he, hk'⟩ := findMonth_spec d hd
   have := inMonth_unique h hk'
   subst this; exact he
 
-theorem findMonth_fst_iff {k : Nat} {d : Int} (hd : 0 ≤ d) : (findMonth d).1 = k ↔ InMonth k d := by
+theorem findMonth_fst_iff {k : Nat} {d : Int} (hd : M0 ≤ d) : (findMonth d).1 = k ↔ InMonth k d := by
   obtain ⟨k', he, hk'⟩ := findMonth_spec d hd
   rw [he]
   constructor
@@ -338,11 +338,11 @@ theorem isBMonthEnd_lbd (k : Nat) : isBMonthEnd (lbd k) = true :=
   (isBMonthEnd_of_inMonth (lbd_inMonth k)).2 rfl
 
 /-- for `d ≥ 0`: `d` is on the `BME` offset iff it is the last business day of its month -/
-theorem isBMonthEnd_iff_lbd {d : Int} (hd : 0 ≤ d) : isBMonthEnd d = true ↔ d = lbd (findMonth d).1 := by
+theorem isBMonthEnd_iff_lbd {d : Int} (hd : M0 ≤ d) : isBMonthEnd d = true ↔ d = lbd (findMonth d).1 := by
   obtain ⟨k, he, hk⟩ := findMonth_spec d hd
   rw [he]; exact isBMonthEnd_of_inMonth hk
 
-theorem isBMonthEnd_iff_exists {d : Int} (hd : 0 ≤ d) : isBMonthEnd d = true ↔ ∃ k, d = lbd k := by
+theorem isBMonthEnd_iff_exists {d : Int} (hd : M0 ≤ d) : isBMonthEnd d = true ↔ ∃ k, d = lbd k := by
   constructor
   · intro h; exact ⟨_, (isBMonthEnd_iff_lbd hd).1 h⟩
   · rintro ⟨k, rfl⟩; exact isBMonthEnd_lbd k
@@ -366,11 +366,11 @@ theorem not_bme_between {k : Nat} {x : Int} (h1 : lbd k < x) (h2 : x < lbd (k + 
   · exact not_bme_before (by omega) h2
 
 /-- "last business day of its month" ⇔ business day whose next business day lies in another month -/
-theorem isBMonthEnd_char {d : Int} (hd : 0 ≤ d) :
+theorem isBMonthEnd_char {d : Int} (hd : M0 ≤ d) :
     isBMonthEnd d = true ↔ isBDay d = true ∧ (findMonth (nextBDay d)).1 ≠ (findMonth d).1 := by
   obtain ⟨k, he, hk⟩ := findMonth_spec d hd
   obtain ⟨n1, n2, n3⟩ := nextBDay_spec d
-  have hn0 : 0 ≤ nextBDay d := by omega
+  have hn0 : M0 ≤ nextBDay d := by omega
   have hl := lbd_spec k
   rw [he, isBMonthEnd_of_inMonth hk]
   simp only [ne_eq, findMonth_fst_iff hn0]
@@ -432,7 +432,7 @@ theorem iterBME_eq_filter (tod end_ hi : Int) (hhi : ∀ c : Int, c * 86400 + to
       exact daysFrom_filter_none _ _ _ (fun x a b => hnone x a (by omega))
 
 /-- `pd.date_range(start, end, freq='BME')` = the business month ends `d` with `dayOf start ≤ d ≤ hiOf start end` -/
-theorem bmeRangeDays_eq_filter (start end_ : Int) (h0 : 0 ≤ dayOf start) :
+theorem bmeRangeDays_eq_filter (start end_ : Int) (h0 : M0 ≤ dayOf start) :
     bmeRangeDays start end_ =
       (daysFrom (dayOf start) (hiOf start end_ + 1 - dayOf start).toNat).filter isBMonthEnd := by
   obtain ⟨k, he, hk⟩ := findMonth_spec (dayOf start) h0
